@@ -27,6 +27,10 @@ ENCODING_ASSUMPTIONS = [
 ]
 
 
+# properties whose deciding content is mostly NOT deductive are reported as `other`, with the explanation below
+LEVEL_OVERRIDE = {"C07": "other", "C20": "other"}
+
+
 def _strip_line(n):
     return re.sub(r"@L\d+", "", n)
 
@@ -235,7 +239,7 @@ def finish(prop, tier, seed, reg, repo, results, extra, t0):
     trusted += [f"trusted marker in sidecars: {m}" for m in scan_trust_markers()]
     discharged = len(proved)
     all_decided = (not undecided_funcs and not unknown and not missing)
-    level = "proof"
+    level = LEVEL_OVERRIDE.get(prop, "proof")
     samples = []
     for fkey, n, g in (refuted + unknown + proved)[:6]:
         samples.append({"obligation": n, "verdict": g["verdict"], "kind": g.get("kind"),
